@@ -192,13 +192,7 @@ func runC14(c *Ctx) {
 	c.R.Floor(r3, 9)
 
 	const r4 = "C14.R4 listToMsg and the Deserialize siblings are bounded and checked"
-	l2m := "transport/serialize.listToMsg"
-	val := `phi\(call:\(reflect\.Value\)\.Elem\(call:reflect\.ValueOf\(call:wamp\.NewMessage\(%msgType\)\)\)\|call:reflect\.ValueOf\(call:wamp\.NewMessage\(%msgType\)\)\)`
-	c.Guard(r4, l2m, "message field accessed", `^call:\(reflect\.Value\)\.Field\(`+val+`, `, 1,
-		clause("index below the number of fields", T(`^\(.* < call:\(reflect\.Value\)\.NumField\(`+val+`\)\)$`)),
-		clause("index below the list length - 1", T(`^\(.* < \(call:builtin:len\(%vlist\) - 1\)\)$`)))
-	c.Guard(r4, l2m, "unknown message type refused", `^return:nil, call:errors\.New\("unsupported message type"\)$`, 1, clause("NewMessage returned nil", T(`^\(call:wamp\.NewMessage\(%msgType\) == nil\)$`)))
-	c.Reach(r4, l2m, "nil NewMessage result is never used", ReachSpec{FromEdge: &ir.Clause{Name: "nil", Edges: []ir.EdgeSpec{T(`^\(call:wamp\.NewMessage\(%msgType\) == nil\)$`)}}, Target: `^call:reflect\.ValueOf\(`, Want: false})
+	ruleListToMsgBounded(c, r4)
 	for _, s := range []string{"JSONSerializer", "MessagePackSerializer", "CBORSerializer"} {
 		f := "transport/serialize.(*" + s + ").Deserialize"
 		c.Guard(r4, f, "message built", `^call:transport/serialize\.listToMsg\(`, 1,
@@ -306,4 +300,16 @@ func runC14(c *Ctx) {
 	}
 	c.R.Check(nLay == nStruct, r6, "wamp", "every message struct has a reference layout", "-", fmt.Sprintf("%d message structs, %d reference layouts", nStruct, nLay))
 	c.R.Floor(r6, 25)
+}
+
+// ruleListToMsgBounded: the reflection loop that fills a message from a decoded list never indexes a field the
+// message type does not have, nor a list element that is not there, and an unknown type code yields an error.
+func ruleListToMsgBounded(c *Ctx, r4 string) {
+	l2m := "transport/serialize.listToMsg"
+	val := `phi\(call:\(reflect\.Value\)\.Elem\(call:reflect\.ValueOf\(call:wamp\.NewMessage\(%msgType\)\)\)\|call:reflect\.ValueOf\(call:wamp\.NewMessage\(%msgType\)\)\)`
+	c.Guard(r4, l2m, "message field accessed", `^call:\(reflect\.Value\)\.Field\(`+val+`, `, 1,
+		clause("index below the number of fields", T(`^\(.* < call:\(reflect\.Value\)\.NumField\(`+val+`\)\)$`)),
+		clause("index below the list length - 1", T(`^\(.* < \(call:builtin:len\(%vlist\) - 1\)\)$`)))
+	c.Guard(r4, l2m, "unknown message type refused", `^return:nil, call:errors\.New\("unsupported message type"\)$`, 1, clause("NewMessage returned nil", T(`^\(call:wamp\.NewMessage\(%msgType\) == nil\)$`)))
+	c.Reach(r4, l2m, "nil NewMessage result is never used", ReachSpec{FromEdge: &ir.Clause{Name: "nil", Edges: []ir.EdgeSpec{T(`^\(call:wamp\.NewMessage\(%msgType\) == nil\)$`)}}, Target: `^call:reflect\.ValueOf\(`, Want: false})
 }
